@@ -376,6 +376,23 @@ def _s(s):
     s.out, s.out_name = m, "site"
 
 
+@scenario("site.weibull.no_invariant", "torchtree.evolution.site_model.WeibullSiteModel")
+def _s(s):
+    # the branch of update_rates / probabilities without an invariant class (constant weights 1/K), with the optional relative rate
+    from torchtree.evolution.site_model import WeibullSiteModel
+    m = s.M("site", WeibullSiteModel("site", s.P("site.shape", [0.5], "pos"), 3, None, s.P("site.mu", [1.5], "pos")), out=True)
+    s.E("site.rates", m.rates)
+    s.E("site.probabilities", m.probabilities)
+
+
+@scenario("site.weibull.shape_only", "torchtree.evolution.site_model.WeibullSiteModel")
+def _s(s):
+    from torchtree.evolution.site_model import WeibullSiteModel
+    m = s.M("site", WeibullSiteModel("site", s.P("site.shape", [0.5], "pos"), 4), out=True)
+    s.E("site.rates", m.rates)
+    s.E("site.probabilities", m.probabilities)
+
+
 # ---- substitution models -----------------------------------------------------------------------
 @scenario("subst.jc69", "torchtree.evolution.substitution_model.nucleotide.JC69")
 def _s(s):
